@@ -26,6 +26,10 @@ type Cfg struct {
 	// literal right after a regexp parameter never starts with a byte of the
 	// rule's class.
 	Witness bool
+	// Alt adds top-level alternations to the rule pool. Only for checks whose oracle is the
+	// conformance matcher (C01): the resolver-based oracles exclude alternations because
+	// leftmost-first and whole-length matching then disagree.
+	Alt bool
 }
 
 func GenCfg(t *rapid.T, witness bool) Cfg {
@@ -49,6 +53,7 @@ var burstBytes = []string{"a", "b", "c", "d", "e", "f", "g", "1", "-", "."}
 // regexp rules: one character class under a quantifier, no braces.
 var rulesWitness = []string{`\d+`, `\w+`, `[^/]+`, `[x-z7-9]+`, `\d*`}
 var rulesExtra = []string{`[ab]+`, `[a-b1][a-b1]`, `[a-c]*`, `[0-9]+`}
+var rulesAlt = []string{`img|doc`, `a|b1`, `x|yz|7`}
 
 // classAccepts: does the class of the (vetted) rule accept byte c?
 func classAccepts(rule string, c byte) bool {
@@ -146,6 +151,9 @@ func (b *builder) addParam(t *rapid.T) {
 		pool := rulesWitness
 		if !b.cfg.Witness {
 			pool = append(append([]string{}, rulesWitness...), rulesExtra...)
+		}
+		if b.cfg.Alt {
+			pool = append(append([]string{}, pool...), rulesAlt...)
 		}
 		var ok []string
 		for _, r := range pool {
@@ -292,7 +300,7 @@ func GenValue(t *rapid.T, pm *Param) string {
 	}
 	if mode < 7 {
 		var cands []string
-		for _, c := range []string{"1", "11", "a", "ab", "b1", "aa", "ba", "a1", "1a", "abc", "", "digit", "a/b", "1/1", "x.y", "a-b", "a.b"} {
+		for _, c := range []string{"1", "11", "a", "ab", "b1", "aa", "ba", "a1", "1a", "abc", "", "digit", "a/b", "1/1", "x.y", "a-b", "a.b", "img", "doc", "yz", "x"} {
 			if pm.Accepts(c) {
 				cands = append(cands, c)
 			}
